@@ -6,6 +6,7 @@ package capgen
 import (
 	"bytes"
 	"fmt"
+	"reflect"
 	"time"
 
 	"github.com/gopacket/gopacket"
@@ -307,7 +308,13 @@ func NgFile(r *vlib.Rand, small bool, libpcapSafe bool) *File {
 		if libpcapSafe {
 			ci.InterfaceIndex = r.Intn(len(f.Ifaces))
 		}
-		if err := w.WritePacketWithOptions(ci, d, o); err != nil && f.WriteErr == "" {
+		var werr error
+		if reflect.DeepEqual(o, pcapgo.NgPacketOptions{}) && i%2 == 0 {
+			werr = w.WritePacket(ci, d) // the plain call, for packets without options
+		} else {
+			werr = w.WritePacketWithOptions(ci, d, o)
+		}
+		if err := werr; err != nil && f.WriteErr == "" {
 			f.WriteErr = fmt.Sprintf("packet %d: %v", i, err)
 		}
 		if err := w.Flush(); err != nil && f.WriteErr == "" {
